@@ -19,13 +19,70 @@ static void run_case(const Config &cfg, const Bytes &stream, const char *cls) {
 static Bytes payload(size_t n, unsigned salt) { Bytes p(n); for (size_t i = 0; i < n; i++) p[i] = mem_octet((uint32_t)i, salt); return p; }
 static Bytes wire(bool serial, const rp::Frame &f) { return rp::on_wire(serial, rp::encode(f)); }
 
+// A frame of 2^31 (and 2^32 + 2^31 + 10) octets on the TCP transport, really delivered: a lazily generating chunk source that lends a
+// 64 KiB scratch region (getbuffer extension), so that the 2 GiB pass through the receiver in 32768 driver calls without existing anywhere.
+// The frame is a well-formed write request header followed by filler: it cannot fit any block, so the answer is the receive-overflow
+// response echoing sequence number and address; the small valid request behind it must then be handled normally.
+struct LazySource {
+    Source src; std::vector<uint8_t> scratch; Bytes head, tail; uint64_t body = 0, pos = 0; size_t calls = 0;
+    uint64_t total() const { return head.size() + body + tail.size(); }
+    static ByteBuffer gb(Source *s) { LazySource *me = (LazySource *)s->driver; ByteBuffer b; b.data = me->scratch.data(); b.size = me->scratch.size(); b.offset = 0; b.used = me->scratch.size(); return b; }
+    static ssize_t rd(void *d, void *out, size_t n) {
+        LazySource *me = (LazySource *)d; me->calls++;
+        if (me->pos >= me->total()) return -ENODATA;
+        uint64_t left = me->total() - me->pos; if (n > left) n = (size_t)left;
+        uint8_t *o = (uint8_t *)out;
+        for (size_t i = 0; i < n; ) {
+            uint64_t p = me->pos + i;
+            if (p < me->head.size()) { o[i++] = me->head[(size_t)p]; continue; }
+            if (p >= me->head.size() + me->body) { o[i++] = me->tail[(size_t)(p - me->head.size() - me->body)]; continue; }
+            uint64_t run = std::min<uint64_t>(n - i, me->head.size() + me->body - p);
+            memset(o + i, 0x55, (size_t)run); i += (size_t)run;
+        }
+        me->pos += n; return (ssize_t)n;
+    }
+};
+static void giant_frames() {
+    for (uint64_t L : {(uint64_t)1 << 31, ((uint64_t)1 << 32) + ((uint64_t)1 << 31) + 10}) for (int mem16 = 0; mem16 < 2; mem16++) {
+        std::string rep = vp::fmt("giant %llu %d\n", (unsigned long long)L, mem16);
+        vp::CaseScope scope([&] { return rep; });
+        LazySource ls; ls.scratch.assign(65536, 0);
+        rp::Frame big = rp::make_request(false, true, false, 0x4711, 0x00abcdefu, 77, {});      // header only; the "payload" is the filler
+        Bytes hdr = rp::encode(big);
+        ls.head = ref::varint_encode(L); ls.head.insert(ls.head.end(), hdr.begin(), hdr.end());
+        ls.body = L - hdr.size();
+        ls.tail = rp::on_wire(false, rp::encode(rp::make_request(false, false, mem16, 9, 0x20, 1, {})));
+        chunk_source_init(&ls.src, &LazySource::rd, &ls); ls.src.ext.getbuffer = &LazySource::gb;
+        ep::ScriptSink snk(true); Ledger led(sizeof(RPFrame) + 200);
+        RegP p; regp_init(&p);
+        if (mem16) regp_use_memory16(&p, vp_read16, vp_write16); else regp_use_memory8(&p, vp_read8, vp_write8);
+        regp_use_channel(&p, RP_EP_TCP, ls.src, snk.snk); regp_use_allocator(&p, &led.ba);
+        be().reset();
+        vp::count(); vp::nontrivial(vp::mix(L, 8800 + (uint64_t)mem16)); vp::cls("giant-frame-really-delivered");
+        RPMaybeFrame mf; memset(&mf, 0, sizeof mf);
+        int rr = regp_recv(&p, &mf); int pr = regp_process(&p, &mf); (void)pr;
+        if (mf.frame) regp_free(&p, mf.frame);
+        std::vector<Bytes> fr; std::vector<rp::Frame> rs;
+        bool ok = rp::split_wire(false, snk.got, fr); for (auto &f : fr) { rp::Frame d; rp::decode(f, d); rs.push_back(d); }
+        if (rr < 0) { vp::fail("giant:channel-error", vp::fmt("regp_recv returned %d for a completely delivered frame of %llu octets (source position %llu)", rr, (unsigned long long)L, (unsigned long long)ls.pos), rep); continue; }
+        if (mf.error.id == 0 || !be().log.empty()) { vp::fail("giant:overflow-not-detected", vp::fmt("error.id=%d, %zu back-end accesses", mf.error.id, be().log.size()), rep); continue; }
+        if (!ok || rs.size() != 1 || !rs[0].is_response() || rs[0].meta != rp::C_ERXOVERFLOW || rs[0].seq != 0x4711 || rs[0].addr != 0x00abcdefu) { vp::fail("giant:no-erxoverflow-reply", vp::fmt("%zu reply frames%s", rs.size(), rs.empty() ? "" : (", first: " + rp::show(rs[0])).c_str()), rep); continue; }
+        if (ls.pos != ls.head.size() + ls.body) { vp::fail("giant:stream-position", vp::fmt("receiver consumed %llu octets, the frame ends at %llu", (unsigned long long)ls.pos, (unsigned long long)(ls.head.size() + ls.body)), rep); continue; }
+        if (led.outstanding() || led.double_free) { vp::fail("giant:ledger", "allocation ledger unbalanced", rep); continue; }
+        // the frame behind it
+        snk.got.clear(); memset(&mf, 0, sizeof mf);
+        rr = regp_recv(&p, &mf); pr = regp_process(&p, &mf);
+        if (mf.frame) regp_free(&p, mf.frame);
+        if (rr != 0 || mf.error.id != 0 || be().log.size() != 1) vp::fail("giant:next-frame-not-handled", vp::fmt("the request behind the giant frame: rc=%d error.id=%d accesses=%zu", rr, mf.error.id, be().log.size()), rep);
+    }
+}
 static void run() {
     auto &a = vp::args();
     vp::CaseScope scope([] { return ser(g_cfg, g_stream); });
     bool T = a.thorough();
     vp::stats().rule = "enum: per (transport, memory width, block size; octet sources, chunk sources, chunk sources lending a 2..64-octet buffer through the getbuffer extension): valid write requests of every total length from capacity-20 to capacity+20; read requests with every block size from the "
                        "transmit limit -8 to +8; allocation failure at every allocation (single and pairs) of multi-frame streams; empty frames and frames of 1..11 octets; every truncation point of "
-                       "a multi-frame stream; invalid SLIP escapes / over-long varint prefixes inside streams; every frame type x option bits x block size x payload length form in blocks the frame fills exactly (+-1); random mutated streams; oracle = reference stream walker + per-frame expectations "
+                       "a multi-frame stream; invalid SLIP escapes / over-long varint prefixes inside streams; every frame type x option bits x block size x payload length form in blocks the frame fills exactly (+-1); two frames of 2^31 and 2^32+2^31+10 octets really delivered by a lazily generating lending source; random mutated streams; oracle = reference stream walker + per-frame expectations "
                        "(access count and arguments, resource replies, error ids), allocation ledger, ASan/UBSan, endpoint-call budget";
     vp::Rng rng(a.seed * 19001 + a.shard);
     uint64_t idx = 0;
@@ -110,6 +167,7 @@ static void run() {
             Config cfg{(bool)serial, (bool)mem16, (int)(bs % 3 == 2 ? 5 : bs % 2), raw.size() - 1 + (size_t)fit, 0};   // capacity = block_extra + 1
             run_case(cfg, rp::on_wire(serial, raw), "all-types-and-options-in-exact-fit-blocks");
         }
+    if (a.shard == a.nshards - 1) giant_frames();
     // random mutated streams
     size_t nrand = (T ? 400000 : 40000) / a.nshards;
     for (size_t i = 0; i < nrand && !vp::too_many_failures(); i++) {
@@ -131,6 +189,7 @@ static void run() {
     }
 }
 static bool replay(const std::string &text) {
+    if (text.rfind("giant", 0) == 0) { giant_frames(); return vp::stats().failures.empty(); }
     Config cfg; Bytes s;
     if (!parse(text, cfg, s)) return false;
     vp::CaseScope scope([] { return ser(g_cfg, g_stream); });
